@@ -30,7 +30,7 @@ passed=$(grep -E "^test result" "$LOG/suite.log" | awk '{p+=$4; f+=$6} END {prin
 res "suite_with_patch rc=$rc_suite $passed"
 # 4. our check against the mutated tree
 cd /verif
-AGV_REPO=$WT AGV_SHADOW=$SH ./check "$PID" > "$LOG/check.log" 2>&1; rc_chk=$?
+env -u CARGO_TARGET_DIR AGV_REPO=$WT AGV_SHADOW=$SH ./check "$PID" > "$LOG/check.log" 2>&1; rc_chk=$?
 res "check rc=$rc_chk $(grep -E '^VIOLATION' "$LOG/check.log" | head -1)"
 # 5. store
 mkdir -p /verif/seeded/$PID
